@@ -21,6 +21,16 @@ CLAIMED = {
              "Bound: L<=8 quick, L<=16 thorough (paths grow as 2^L); special symbols *#abc outside the claim."),
 }
 
+CLAIMED["C17"] = dict(
+    level="proof", technique=E2 + "; plus " + E1, design="6/C17",
+    text="SMT obligations generated from the predicates' current source: for each of the five integer predicates "
+         "'forall n in Int, n%1000!=0 -> (f_k(n) <-> n div 1000 = k)', the same for the five answer-object predicates "
+         "over every 4-byte Result-Code word, and pairwise exclusivity for every code; each obligation is the unsat "
+         "of its negation, required from z3 and cvc5 independently. CrossHair re-decides the same clauses through "
+         "real DiameterMessage/ResultCodeAVP objects so that has_avp/attribute glue is covered.",
+    note="Trusted: z3 4.8.12, cvc5 1.0, the AST->SMT translator (validated each run on all library result-code "
+         "constants), CrossHair's models. E2 stubs has_avp()/result_code_avp.data (listed in evidence).")
+
 PENDING_REASON = "check not built yet in this session (planned in DESIGN.md section 6); no claim is made"
 NOT_APPLICABLE = {}
 
